@@ -23,7 +23,7 @@ def stages(tier, seed, bins):
     cases = []
     total = 6000 if thorough else 300
     while len(cases) < total:
-        kind = rnd.choice(["gauss", "clustered", "collinear", "coincident", "dyadic", "wide", "nearpairs"])
+        kind = rnd.choice(["gauss", "clustered", "collinear", "coincident", "dyadic", "wide", "nearpairs", "farline", "thin"])
         N = rnd.choice([1, 2, 3, 4, 5, 8, 16, 33, 64, 100, 200, 400])
         if rnd.random() < (0.05 if thorough else 0.02):
             N = rnd.choice([1000, 2000])
@@ -34,6 +34,8 @@ def stages(tier, seed, bins):
             c["axis"] = rnd.choice([0, 1])
         if kind == "coincident":
             c["copies"] = rnd.choice([2, 3, 10])
+        if kind == "farline":
+            c["far"] = rnd.choice([1e6, 1e9, 1e12, 3e11])
         if kind == "wide":
             c["decades"] = rnd.choice([3, 6, 6])
         c["id"] = "q%d" % (len(cases) + 1)
@@ -64,7 +66,7 @@ def coverage(recs, tier):
             sig.add((c["pts"], c["N"], c["pseed"]))
     return dict(
         rule="case = one 2-D point set (generic, clustered, collinear incl. axis-parallel, coincident, dyadic cell boundaries in an explicit box, 12 decades wide, "
-             "near-coincident pairs) built in 10 insertion orders; non-trivial = N>=2; distinct = distinct (kind, N, seed)",
+             "near-coincident pairs, axis-parallel lines up to 1e12 from the origin, clusters a few ulps thin) built in 10 insertion orders; non-trivial = N>=2; distinct = distinct (kind, N, seed)",
         distinct_nontrivial=len(sig), point_sets=len(recs), trees_built=10 * len(recs), cells_checked=cells, force_field_evaluations=forces,
         max_tree_depth=depth, max_relative_error_by_theta=errs, cases_by_kind=tags,
         samples=[" ".join("%s=%s" % kv for kv in c.items()) for st, c, r in recs[::max(1, len(recs) // 6)][:6]],
